@@ -256,7 +256,10 @@ def free_read(name, body, hidden=False):
             found |= (not hidden) and ex(s[2])
             hidden = hidden or name in _targets(s[1])
         elif k == "seta":
-            found |= (not hidden) and (s[1] == name or ex(s[3]))
+            # the TARGET of an attribute assignment is not a use of a special variable: on varargs (a tuple), kwargs
+            # (a dict) or caller (a macro) it can only fail, and which error a call with extra arguments then
+            # reports is not a scoping matter (the engine does not count it either)
+            found |= (not hidden) and ex(s[3])
         elif k == "nsnew":
             found |= (not hidden) and (name == "namespace" or any(ex(e) for _, e in s[2]))
             hidden = hidden or s[1] == name
